@@ -767,7 +767,7 @@ class CallsMixin:
                 m = re.match(r'(\w+)\s*:\s*(.*)$', cl.text, re.S)
                 if m and m.group(1) == nm:
                     matched = True
-                    if m.group(2).strip() != 'maypanic' and not m.group(2).strip().startswith('returns '):
+                    if m.group(2).strip() != 'maypanic' and not m.group(2).strip().startswith(('returns ', 'then ')):
                         self.run_hint(st, SpecEnv(st, binds, st.entry), m.group(2), cl)
         maypanic = False
         if self.frame and self.frame.contract:
@@ -798,6 +798,10 @@ class CallsMixin:
                 if m and m.group(1) == nm:
                     st.assume(self.sev_bool(SpecEnv(st, rb, st.entry), speclang.parse_expr(m.group(2))))
                     self.assumed.add('callback %s returns: %s' % (nm, m.group(2).strip()))
+            for cl in self.frame.contract.get('oncall'):
+                m = re.match(r'(\w+)\s*:\s*then\s+(.*)$', cl.text, re.S)      # a hint run after the call, results bound to r0, r1, ...
+                if m and m.group(1) == nm:
+                    self.run_hint(st, SpecEnv(st, rb, st.entry), m.group(2), cl)
         return results[0] if len(results) == 1 else TupleV(results)
 
     # -- conversions ------------------------------------------------------------------------------
